@@ -340,12 +340,16 @@ CLASS_POOLS = (
 )
 
 
-def lattice_doc(rng: Rng, i: int) -> tuple[dict, set[str], dict]:
+def lattice_doc(rng: Rng, i: int, undeclared_required: bool = False) -> tuple[dict, set[str], dict]:
     """Definitions forming an inheritance lattice: roots (level 0), classes with one or two root parents
     (level 1), sometimes a level 2 on top of level 1, and leaves `allOf [>= 2 $ref bases (, inline members)]`
     with `required` NEXT TO `allOf` naming inherited members. Returns the document, its features and, per
     member of the document that holds a leaf ("" = the document is the leaf), where each name of the leaf's
-    `required` is declared: {member: {name: (index of the base it is reached through, levels up)}}."""
+    `required` is declared: {member: {name: (index of the base it is reached through, levels up)}}.
+    Every third document also has an INTERMEDIATE class with `required` next to its `allOf` naming a member of its
+    own parent (the leaf then finds the re-declared copy first). `undeclared_required` (used by the model
+    correspondence only — such a document has no valid instance to build mutations from): a leaf also lists a
+    name that is declared nowhere in the lattice."""
     g = DocGen(rng, GenCfg(max_depth=1, big_bounds=False))
     r = g.rng
     feats: set[str] = set()
@@ -386,6 +390,9 @@ def lattice_doc(rng: Rng, i: int) -> tuple[dict, set[str], dict]:
                 feats.add("two_parents")
         b = body(r.range(1, 2))
         defs[c] = {"allOf": [*({"$ref": R + p} for p in ps), b]}
+        if i % 3 == 2 and k == 0:
+            defs[c]["required"] = [own[ps[-1]][0]]
+            feats.add("intermediate_required")
         parents[c], own[c] = ps, list(b["properties"])
     level2: list[str] = []
     if i % 3 == 1:
@@ -445,11 +452,16 @@ def lattice_doc(rng: Rng, i: int) -> tuple[dict, set[str], dict]:
         rest = [m for m in inherited + mine if m not in must]
         req = must + r.sample(rest, r.range(0, min(3, len(rest))))
         req = r.shuffle(req)
+        if undeclared_required and not leaves:
+            req.insert(r.range(0, len(req)), "zz-nowhere")
+            feats.add("required_name_declared_nowhere")
         defs[c] = {"allOf": parts, "required": req}
         parents[c], own[c] = bases, mine
         leaves.append(c)
         where[c] = {}
         for name in req:
+            if name == "zz-nowhere":
+                continue
             for bi, b in enumerate(bases):
                 d = distance(b, name)
                 if d is not None:
@@ -462,7 +474,7 @@ def lattice_doc(rng: Rng, i: int) -> tuple[dict, set[str], dict]:
         if len({a for b in bases for a in ancestors(b)}) < sum(len(ancestors(b)) for b in bases):
             feats.add("diamond")
     if not leaves:
-        return lattice_doc(rng.fork("again"), i)
+        return lattice_doc(rng.fork("again"), i, undeclared_required)
     if i % 4 == 3 and len(leaves) == 1:
         # the leaf is the document itself
         leaf = leaves[0]
